@@ -69,7 +69,8 @@ OwnKey(q) == \/ q.subj = "ec256" /\ q.sg.kind = "ecdsa" /\ q.sg.r = 72
 \* what is observed of the Content of the certificate:
 \*   is       "given" (byte for byte what was handed over) | "other" | "absent"
 \*   key      what a relying party imports from it: "subject" (the subject's key) | "other-key" | "unreadable"
-\*   carried  a checker built from (key locator, Content) accepts the certificate
+\*   carried  a checker built from (key locator, Content) accepts the certificate (expected TRUE = it must, when the
+\*            certificate is signed with the very key it carries; expected FALSE = not constrained)
 \* The expectation does not depend on enc beyond readability, nor on pubbuf at all: no encoding is rewritten.
 ContentExpect(q) == [is |-> "given", key |-> IF Readable(q) THEN "subject" ELSE "unreadable", carried |-> Readable(q) /\ OwnKey(q)]
 ContentClause(q, o) == IF o.is # "given" THEN 7 ELSE IF o.key # ContentExpect(q).key THEN 8
